@@ -142,7 +142,8 @@ def check_range(acc, pendulum, z, f, span, sign, mode, unit, n, end_zone=None):
     status = "ok"
     worker.horizon(5.0)
     try:
-        it = iv.range(unit, n) if unit != "ITER" else iter(iv)
+        # both spellings of the step (positional / amount=), alternating with the state
+        it = iter(iv) if unit == "ITER" else (iv.range(unit, amount=n) if (len(want) + n) % 2 else iv.range(unit, n))
         for x in it:
             got.append(x)
             if len(got) > len(want) + 3:
